@@ -2,6 +2,15 @@
 
 package raft
 
+import (
+	"bytes"
+	"errors"
+	"fmt"
+	"io"
+
+	"github.com/hashicorp/raft"
+)
+
 // VerifStats is the replication state of one node as the raft library reports it.
 type VerifStats struct {
 	State    string // Leader, Follower, Candidate, Shutdown
@@ -31,4 +40,50 @@ func (r *Raft) VerifBarrier() error { return r.raft.Barrier(0).Error() }
 // VerifStop stops the raft node for good (the public shutdown path only transfers leadership).
 func (r *Raft) VerifStop() error {
 	return r.raft.Shutdown().Error()
+}
+
+// verifSink is an in-memory raft.SnapshotSink.
+type verifSink struct {
+	id  string
+	buf bytes.Buffer
+}
+
+func (s *verifSink) Write(p []byte) (int, error) { return s.buf.Write(p) }
+func (s *verifSink) Close() error                { return nil }
+func (s *verifSink) ID() string                  { return s.id }
+func (s *verifSink) Cancel() error               { return errors.New("snapshot cancelled") }
+
+// verifFSM builds the state machine exactly as RaftInit does.
+func (r *Raft) verifFSM() raft.FSM {
+	return NewFSM(FSMOpts{
+		Config:                r.options.Config,
+		GetState:              r.options.GetState,
+		GetCommand:            r.options.GetCommand,
+		SetValues:             r.options.SetValues,
+		SetExpiry:             r.options.SetExpiry,
+		DeleteKey:             r.options.DeleteKey,
+		StartSnapshot:         r.options.StartSnapshot,
+		FinishSnapshot:        r.options.FinishSnapshot,
+		SetLatestSnapshotTime: r.options.SetLatestSnapshotTime,
+		GetHandlerFuncParams:  r.options.GetHandlerFuncParams,
+	})
+}
+
+// VerifSnapshot runs the state machine's Snapshot + Persist + Release and returns the snapshot bytes.
+func (r *Raft) VerifSnapshot(msec int64) ([]byte, error) {
+	snap, err := r.verifFSM().Snapshot()
+	if err != nil {
+		return nil, err
+	}
+	defer snap.Release()
+	sink := &verifSink{id: fmt.Sprintf("1-1-%d", msec)}
+	if err := snap.Persist(sink); err != nil {
+		return nil, err
+	}
+	return sink.buf.Bytes(), nil
+}
+
+// VerifRestore runs the state machine's Restore on snapshot bytes.
+func (r *Raft) VerifRestore(b []byte) error {
+	return r.verifFSM().Restore(io.NopCloser(bytes.NewReader(b)))
 }
